@@ -84,6 +84,12 @@ def cases(tier, rng):
             for deco in ("require", "ensure", "snapshot", "invariant", "requireOnChecker", "ensureOnChecker"):
                 for arg in ("dflt", "explicitTrue", "explicitFalse", "slow"):
                     yield "table", {"dom": "config", "mode": m, "env": e, "arg": arg, "deco": deco}
+            for deco in ("requireOnStaticObj", "ensureOnStaticObj", "requireOnClassmObj", "ensureOnClassmObj"):
+                for arg in ("dflt", "explicitTrue", "explicitFalse", "slow"):
+                    c = {"dom": "config", "mode": m, "env": e, "arg": arg, "deco": deco}
+                    if not expected_enabled(c):       # (enabled contracts above a classmethod object are not supported at all)
+                        yield "table-descriptor-objects", c
+            yield "invariant-broken-before-call", {"dom": "c15broken", "mode": m, "env": e}
             for i, c in enumerate(_slice()):
                 yield "slice", {"dom": "c15slice", "mode": m, "env": e, "i": i, "case": c}
 
@@ -93,13 +99,20 @@ def search_cases(rng, hint, n):
 
 
 def driver_inputs(case):
+    if case["dom"] == "c15broken":
+        return []
     if case["dom"] == "config":
+        if case["deco"].endswith("Obj"):
+            # to the model a descriptor object is a callable like any other
+            return [dict(case, deco="require" if case["deco"].startswith("require") else "ensure")]
         return [case]
     return [case["case"]]
 
 
 def run_impl(case):
     ch = _children()[(case["mode"], case["env"])]
+    if case["dom"] == "c15broken":
+        return {"broken": ch["broken_before_call"], "normal": _children()[("normal", "unset")]["broken_before_call"]}
     if case["dom"] == "config":
         return {"row": ch["table"]["%s/%s" % (case["deco"], case["arg"])], "debug": ch["debug"], "SLOW": ch["SLOW"],
                 "optimize": ch["optimize"]}
@@ -108,6 +121,8 @@ def run_impl(case):
 
 
 def model_view(case, mos):
+    if case["dom"] == "c15broken":
+        return {"broken": "as-specified"}
     mo = mos[0]
     if case["dom"] == "config":
         return {"enabled": mo["enabled"], "same": mo["sameObject"], "attrs": mo["attrsAdded"], "stored": mo["conditionStored"]}
@@ -115,6 +130,8 @@ def model_view(case, mos):
 
 
 def project(case, obs):
+    if case["dom"] == "c15broken":
+        return "untied"
     if case["dom"] == "config":
         if "row" in obs:
             r = obs["row"]
@@ -141,6 +158,15 @@ def expected_enabled(case):
 
 def spec(case, mos, io):
     fails = []
+    if case["dom"] == "c15broken":
+        for flavour, (res, ran) in sorted(io["broken"].items()):
+            if res != "violation" or ran:
+                fails.append("mode %s/%s: %s on an object whose (explicitly enabled) invariant was broken behind the library's back: "
+                             "outcome %s, bodies run %s - expected a violation before any body" % (case["mode"], case["env"], flavour, res, ran))
+            if [res, ran] != io["normal"][flavour]:
+                fails.append("mode %s/%s: %s behaves differently than in the normal interpreter: %s vs %s"
+                             % (case["mode"], case["env"], flavour, [res, ran], io["normal"][flavour]))
+        return fails
     if case["dom"] == "config":
         r = io["row"]
         if "error" in r:
@@ -156,7 +182,7 @@ def spec(case, mos, io):
                 fails.append("disabled %s changed its argument: %s" % (case["deco"], r))
             if r["cond_calls"]:
                 fails.append("disabled %s called its condition/capture %d times" % (case["deco"], r["cond_calls"]))
-        else:
+        elif not case["deco"].endswith("Obj"):
             if r["cond_calls"] == 0:
                 fails.append("enabled %s never called its condition/capture" % case["deco"])
         return fails
@@ -172,6 +198,8 @@ def classify(case, mos, io, fails):
 
 
 def nontrivial_key(case, mos):
+    if case["dom"] == "c15broken":
+        return (case["mode"], case["env"], "broken-before-call")
     if case["dom"] == "config":
         return (case["mode"], case["env"], case["arg"], case["deco"])
     return (case["mode"], case["env"], case["i"])
